@@ -6,6 +6,7 @@ package blobprog
 import (
 	"bytes"
 	"fmt"
+	"math"
 	"math/rand"
 	"runtime"
 	"strings"
@@ -589,6 +590,64 @@ func TwoCall(maxLen int) []Program {
 					ps = append(ps, Program{Len: l, Calls: []Call{c1, c2}})
 				}
 			}
+		}
+	}
+	return ps
+}
+
+// Extreme returns one- and two-call programs whose arguments lie at the edges of int64 (differences and sums of such
+// arguments wrap around), alone and next to ordinary ones. Grow is left out: a huge Grow is a request for memory.
+func Extreme() []Program {
+	big := []int64{math.MinInt64, math.MinInt64 + 1, math.MinInt64 + 2, -1 << 62, -1 << 32, -1 << 31, 1 << 31, 1 << 32, 1 << 62, math.MaxInt64 - 2, math.MaxInt64 - 1, math.MaxInt64}
+	var ps []Program
+	for _, l := range []int{0, 1, 3, 8} {
+		small := []int64{-1, 0, 1, int64(l), int64(l) + 1}
+		var calls []Call
+		for _, x := range big {
+			for _, y := range append(append([]int64(nil), small...), big...) {
+				calls = append(calls, Call{Op: "View", H: 0, A: x, B: y}, Call{Op: "View", H: 0, A: y, B: x}, Call{Op: "Slice", H: 0, A: x, B: y}, Call{Op: "Slice", H: 0, A: y, B: x})
+			}
+			for _, lit := range []int{0, 1, l + 1} {
+				calls = append(calls, Call{Op: "Set", H: 0, H2: -1, Lit: lit, A: x})
+			}
+			calls = append(calls, Call{Op: "Set", H: 0, H2: 0, A: x}, Call{Op: "Truncate", H: 0, A: x})
+		}
+		for _, c := range calls {
+			ps = append(ps, Program{Len: l, Calls: []Call{c}}, Program{Len: l, Calls: []Call{c, {Op: "Bytes", H: 0}}})
+			if l > 1 {
+				// the same call on a view that does not start at 0 (offsets are added to the arguments there)
+				c1 := c
+				c1.H = 1
+				if c1.Op == "Set" && c1.H2 == 0 {
+					c1.H2 = 1
+				}
+				ps = append(ps, Program{Len: l, Calls: []Call{{Op: "View", H: 0, A: 1, B: int64(l)}, c1, {Op: "Bytes", H: 0}}})
+			}
+		}
+	}
+	return ps
+}
+
+// Big returns programs over blobs whose lengths sit on and around multiples of 64 KiB (and 4 KiB, 32 KiB, 1 MiB): whole
+// and partial copies out (Bytes, Slice), views, writes in the last block.
+func Big() []Program {
+	var ps []Program
+	for _, base := range []int{4096, 32768, 65536, 2 * 65536, 3 * 65536, 4 * 65536, 8 * 65536, 1 << 20} {
+		for _, d := range []int{-1, 0, 1} {
+			l := base + d
+			L := int64(l)
+			ps = append(ps,
+				Program{Len: l, Calls: []Call{{Op: "Bytes", H: 0}}},
+				Program{Len: l, Calls: []Call{{Op: "Slice", H: 0, A: 0, B: L}, {Op: "Bytes", H: 1}}},
+				Program{Len: l, Calls: []Call{{Op: "Slice", H: 0, A: 1, B: L}, {Op: "Bytes", H: 1}}},
+				Program{Len: l, Calls: []Call{{Op: "Slice", H: 0, A: 0, B: L - 1}, {Op: "Bytes", H: 1}}},
+				Program{Len: l, Calls: []Call{{Op: "View", H: 0, A: 0, B: L}, {Op: "Bytes", H: 1}, {Op: "Slice", H: 1, A: 0, B: L}, {Op: "Bytes", H: 2}}},
+				Program{Len: l, Calls: []Call{{Op: "Set", H: 0, H2: -1, Lit: 100, A: L - 100}, {Op: "Bytes", H: 0}, {Op: "Slice", H: 0, A: 0, B: L}, {Op: "Bytes", H: 1}}},
+				Program{Len: l, Calls: []Call{{Op: "Slice", H: 0, A: 0, B: L}, {Op: "Set", H: 1, H2: 0, A: 0}, {Op: "Bytes", H: 1}}},
+				Program{Len: l, Calls: []Call{{Op: "Truncate", H: 0, A: L - 1}, {Op: "Bytes", H: 0}}},
+				Program{Len: l + 4096, Calls: []Call{{Op: "Slice", H: 0, A: 0, B: L}, {Op: "Bytes", H: 1}, {Op: "Slice", H: 0, A: 4096, B: L + 4096}, {Op: "Bytes", H: 2}}},
+				Program{Len: l + 4096, Calls: []Call{{Op: "Truncate", H: 0, A: L}, {Op: "Bytes", H: 0}, {Op: "Slice", H: 0, A: 0, B: L}, {Op: "Bytes", H: 1}}},
+			)
 		}
 	}
 	return ps
